@@ -53,8 +53,8 @@ PROPS["C02"] = {
     "level": "model_checking",
     "harness": ["C02_", "C03_Lemma"],
     "tiers": {
-        "quick": {"timeout": "20s", "maxsteps": 8000000, "casecap": 1100, "bounds": "encoding lemmas: all 42 opcodes x full operand ranges (8/16/32 bit); VM decoders: 4 jump opcodes x all 2^32 targets, OpConstant/OpGetGlobal/OpSetGlobal/OpGetLocal x full index range; monitor: 44 catalog programs, int inputs a,b (full int64, or -1..3 where they bound a loop), bool c. Generated grammar family (gen.go): every statement sequence of <= 2 nodes from 10 atoms (r += x, x = y + 1, y++, m.k += x, block-scoped declaration, immediately-invoked closure reading a captured variable, closure writing a captured variable, break, continue, return) and 8 wrappers (if, if-else, if with init, 3-clause for, for-in, condition-only for, endless for with break, function literal + call), plus every nesting W(W'(atom)), rendered in 4 variable-placement contexts (top level: globals; function body: parameters/locals; closure: captured parameter/locals; loop inside a function) - 1029 programs, inputs a, b full int64 and c bool symbolic: static verifier + VM monitor on each; the optimizer lemma of C03 (arbitrary streams of 2..3 instructions with symbolic operand bytes) for the clause 'every path ends in a return'", "cross": 1},
-        "thorough": {"timeout": "60s", "maxsteps": 8000000, "casecap": 1100, "bounds": "as quick (the catalog and operand ranges are the bound). Generated grammar family (gen.go): every statement sequence of <= 3 nodes (10 atoms, 8 wrappers) in 4 variable-placement contexts - 9262 programs, inputs a, b full int64 and c bool symbolic: static verifier + VM monitor on each", "cross": 2},
+        "quick": {"timeout": "20s", "maxsteps": 8000000, "casecap": 1100, "bounds": "encoding lemmas: all 42 opcodes x full operand ranges (8/16/32 bit); VM decoders: 4 jump opcodes x all 2^32 targets, OpConstant/OpGetGlobal/OpSetGlobal/OpGetLocal x full index range; monitor: 44 catalog programs, int inputs a,b (full int64, or -1..3 where they bound a loop), bool c. Generated grammar family (gen.go): every statement sequence of <= 2 nodes from 13 atoms (r += x, x = y + 1, y++, m.k += x, block-scoped declaration, immediately-invoked closure reading a captured variable, closure writing a captured variable, closure over three variables, block-local escaping in a closure, self-recursive local function, break, continue, return) and 8 wrappers (if, if-else, if with init, 3-clause for, for-in, condition-only for, endless for with break, function literal + call), plus every nesting W(W'(atom)) and sibling blocks W(escape); W'(atom), rendered in 4 variable-placement contexts (top level: globals; function body: parameters/locals; closure: captured parameter/locals; loop inside a function) - 2506 programs, inputs a, b full int64 and c bool symbolic: static verifier + VM monitor on each; the optimizer lemma of C03 (arbitrary streams of 2..3 instructions with symbolic operand bytes) for the clause 'every path ends in a return'", "cross": 1},
+        "thorough": {"timeout": "60s", "maxsteps": 8000000, "casecap": 1100, "bounds": "as quick (the catalog and operand ranges are the bound). Generated grammar family (gen.go): every statement sequence of <= 3 nodes (13 atoms, 8 wrappers) in 4 variable-placement contexts - 22092 programs, inputs a, b full int64 and c bool symbolic: static verifier + VM monitor on each", "cross": 2},
     },
     "reach": {"C02_GenMonitor": ["genmonitor"], "C02_Encoding": ["enc"], "C02_DecodeJump": ["decjump"], "C02_DecodeIndex": ["decidx"], "C02_Monitor": ["monitor"], "C03_Lemma": ["lemma"]},
     "assumptions": [
@@ -70,8 +70,8 @@ PROPS["C03"] = {
     "level": "translation_validation",
     "harness": ["C03_"],
     "tiers": {
-        "quick": {"timeout": "20s", "maxsteps": 8000000, "bounds": "twin compile (with / without dead-code elimination) of 12 dead-code programs + 44 catalog + 9 failing programs, inputs a,b int64 (or -1..3 where they bound loops), c bool: identical globals, identical error text incl. positions; optimizer lemma on arbitrary streams of 2..3 instructions from {TRUE,POP,RET 0/1,JMP,JMPF,ANDJMP,ORJMP,GETL} with jump targets case-split over every instruction boundary and the end. Generated grammar family (gen.go): every statement sequence of <= 2 nodes from 10 atoms (r += x, x = y + 1, y++, m.k += x, block-scoped declaration, immediately-invoked closure reading a captured variable, closure writing a captured variable, break, continue, return) and 8 wrappers (if, if-else, if with init, 3-clause for, for-in, condition-only for, endless for with break, function literal + call), plus every nesting W(W'(atom)), rendered in 4 variable-placement contexts (top level: globals; function body: parameters/locals; closure: captured parameter/locals; loop inside a function) - 1029 programs, inputs a, b full int64 and c bool symbolic: twin compile of each; twin compile of the generated failing programs (one failing statement - int + undefined, -map, for-in over an int, call of an int - at every atom position of every sequence of <= 2 nodes, every nesting W(W'(fail)), and directly after eliminated code W(exit; atom); fail), under both Go-map iteration orders the engine offers; decode/re-encode lemma of iterateInstructions: all 42 opcodes x full operand ranges; optimizer lemma with symbolic operand bytes of GETL/BINARYOP (8 bit), CONST (16 bit), CALL (2 x 8 bit)", "cross": 1},
-        "thorough": {"timeout": "60s", "maxsteps": 8000000, "bounds": "as quick; optimizer lemma on streams of 2..5 instructions. Generated grammar family (gen.go): every statement sequence of <= 3 nodes (10 atoms, 8 wrappers) in 4 variable-placement contexts - 9262 programs, inputs a, b full int64 and c bool symbolic: twin compile of each", "cross": 2},
+        "quick": {"timeout": "20s", "maxsteps": 8000000, "bounds": "twin compile (with / without dead-code elimination) of 12 dead-code programs + 44 catalog + 9 failing programs, inputs a,b int64 (or -1..3 where they bound loops), c bool: identical globals, identical error text incl. positions; optimizer lemma on arbitrary streams of 2..3 instructions from {TRUE,POP,RET 0/1,JMP,JMPF,ANDJMP,ORJMP,GETL} with jump targets case-split over every instruction boundary and the end. Generated grammar family (gen.go): every statement sequence of <= 2 nodes from 13 atoms (r += x, x = y + 1, y++, m.k += x, block-scoped declaration, immediately-invoked closure reading a captured variable, closure writing a captured variable, closure over three variables, block-local escaping in a closure, self-recursive local function, break, continue, return) and 8 wrappers (if, if-else, if with init, 3-clause for, for-in, condition-only for, endless for with break, function literal + call), plus every nesting W(W'(atom)) and sibling blocks W(escape); W'(atom), rendered in 4 variable-placement contexts (top level: globals; function body: parameters/locals; closure: captured parameter/locals; loop inside a function) - 2506 programs, inputs a, b full int64 and c bool symbolic: twin compile of each; twin compile of the generated failing programs (one failing statement - int + undefined, -map, for-in over an int, call of an int - at every atom position of every sequence of <= 2 nodes, every nesting W(W'(fail)), and directly after eliminated code W(exit; atom); fail), under both Go-map iteration orders the engine offers; decode/re-encode lemma of iterateInstructions: all 42 opcodes x full operand ranges; optimizer lemma with symbolic operand bytes of GETL/BINARYOP (8 bit), CONST (16 bit), CALL (2 x 8 bit)", "cross": 1},
+        "thorough": {"timeout": "60s", "maxsteps": 8000000, "bounds": "as quick; optimizer lemma on streams of 2..5 instructions. Generated grammar family (gen.go): every statement sequence of <= 3 nodes (13 atoms, 8 wrappers) in 4 variable-placement contexts - 22092 programs, inputs a, b full int64 and c bool symbolic: twin compile of each", "cross": 2},
     },
     "reach": {"C03_TwinGen": ["twingen"], "C03_TwinFail": ["twinfail"], "C03_Iterate": ["iterate"], "C03_TwinDead": ["twin"], "C03_TwinCatalog": ["twincat"], "C03_Lemma": ["lemma"]},
     "assumptions": [
@@ -140,8 +140,8 @@ PROPS["C01"] = {
     "level": "model_checking",
     "harness": ["C01_"],
     "tiers": {
-        "quick": {"timeout": "20s", "maxsteps": 12000000, "bounds": "out := a OP b for 19 binary operators x U(0,2) x 8-shape lite universe; 4 unary operators x U(1,2); 10 index/slice/selector read+write programs x U(1,2) with symbolic int (or lite) indices; 31 builtins x 0..2 arguments (3 for splice, range); 44 catalog + 9 failing programs with symbolic int/bool inputs; every run compared with the reference evaluator refsem (outcome class and every global). Generated grammar family (gen.go): every statement sequence of <= 2 nodes from 10 atoms (r += x, x = y + 1, y++, m.k += x, block-scoped declaration, immediately-invoked closure reading a captured variable, closure writing a captured variable, break, continue, return) and 8 wrappers (if, if-else, if with init, 3-clause for, for-in, condition-only for, endless for with break, function literal + call), plus every nesting W(W'(atom)), rendered in 4 variable-placement contexts (top level: globals; function body: parameters/locals; closure: captured parameter/locals; loop inside a function) - 1029 programs, inputs a, b full int64 and c bool symbolic, each compared with the reference evaluator", "cross": 1},
-        "thorough": {"timeout": "60s", "maxsteps": 12000000, "bounds": "as quick with U(.,3). Generated grammar family (gen.go): every statement sequence of <= 3 nodes (10 atoms, 8 wrappers) in 4 variable-placement contexts - 9262 programs, inputs a, b full int64 and c bool symbolic, each compared with the reference evaluator", "cross": 2},
+        "quick": {"timeout": "20s", "maxsteps": 12000000, "bounds": "out := a OP b for 19 binary operators x U(0,2) x 8-shape lite universe; 4 unary operators x U(1,2); 10 index/slice/selector read+write programs x U(1,2) with symbolic int (or lite) indices; 31 builtins x 0..2 arguments (3 for splice, range); 44 catalog + 9 failing programs with symbolic int/bool inputs; every run compared with the reference evaluator refsem (outcome class and every global). Generated grammar family (gen.go): every statement sequence of <= 2 nodes from 13 atoms (r += x, x = y + 1, y++, m.k += x, block-scoped declaration, immediately-invoked closure reading a captured variable, closure writing a captured variable, closure over three variables, block-local escaping in a closure, self-recursive local function, break, continue, return) and 8 wrappers (if, if-else, if with init, 3-clause for, for-in, condition-only for, endless for with break, function literal + call), plus every nesting W(W'(atom)) and sibling blocks W(escape); W'(atom), rendered in 4 variable-placement contexts (top level: globals; function body: parameters/locals; closure: captured parameter/locals; loop inside a function) - 2506 programs, inputs a, b full int64 and c bool symbolic, each compared with the reference evaluator", "cross": 1},
+        "thorough": {"timeout": "60s", "maxsteps": 12000000, "bounds": "as quick with U(.,3). Generated grammar family (gen.go): every statement sequence of <= 3 nodes (13 atoms, 8 wrappers) in 4 variable-placement contexts - 22092 programs, inputs a, b full int64 and c bool symbolic, each compared with the reference evaluator", "cross": 2},
     },
     "reach": {"C01_Gen": ["gen"], "C01_BinaryOps": ["binops"], "C01_UnaryOps": ["unops"], "C01_Indexing": ["indexing"], "C01_Builtins": ["builtins"], "C01_Catalog": ["catalog"]},
     "assumptions": [
@@ -174,8 +174,8 @@ PROPS["C11"] = {
     "level": "model_checking",
     "harness": ["C11_"],
     "tiers": {
-        "quick": {"timeout": "20s", "maxsteps": 12000000, "bounds": "20 scope programs (copied closures, a block-scoped variable captured by a closure that outlives the block followed by for-in loops re-using its slot, compound assignment, ++/--, selector assignment through global/local/free variables, closures, shadowing, loops, variadics, recursion, failing operations) x {function body, module function, consistent renaming, each marked sub-expression wrapped in an immediately-invoked function literal}; inputs a, b int64 (or -1..3 where they bound loops/recursion), c bool. Generated grammar family (gen.go): the 542 bodies of <= 2 nodes (and nestings W(W'(atom))) without top-level break/continue/return, each at top level vs inside a function body, inside a closure (captured parameter and locals) and inside a module function", "cross": 2},
-        "thorough": {"timeout": "60s", "maxsteps": 12000000, "bounds": "as quick. Generated grammar family: the 1893 relocatable bodies of <= 3 nodes, same four placements", "cross": 3},
+        "quick": {"timeout": "20s", "maxsteps": 12000000, "bounds": "20 scope programs (copied closures, a block-scoped variable captured by a closure that outlives the block followed by for-in loops re-using its slot, compound assignment, ++/--, selector assignment through global/local/free variables, closures, shadowing, loops, variadics, recursion, failing operations) x {function body, module function, consistent renaming, each marked sub-expression wrapped in an immediately-invoked function literal}; inputs a, b int64 (or -1..3 where they bound loops/recursion), c bool. Generated grammar family (gen.go): the 1085 bodies of <= 2 nodes (and nestings W(W'(atom))) without top-level break/continue/return, each at top level vs inside a function body, inside a closure (captured parameter and locals) and inside a module function", "cross": 2},
+        "thorough": {"timeout": "60s", "maxsteps": 12000000, "bounds": "as quick. Generated grammar family: the 4825 relocatable bodies of <= 3 nodes, same four placements", "cross": 3},
     },
     "reach": {"C11_GenRec": ["genrec"], "C11_GenRelocate": ["genrelocate"], "C11_Relocate": ["relocate"]},
     "assumptions": ["transformations are applied to marked program templates by text substitution in the harness; programs in which a closure outlives the loop iteration that declared a captured variable (the documented scope-dependent case) are not in the list",
@@ -188,8 +188,8 @@ PROPS["C12"] = {
     "level": "translation_validation",
     "harness": ["C12_"],
     "tiers": {
-        "quick": {"timeout": "20s", "maxsteps": 12000000, "bounds": "11 constant-heavy programs (source modules imported twice, nested functions, two builtin modules math/text, two object modules without __module_name__ holding bools/undefined/arrays/maps/errors/bytes, a failing program with a multi-line position) + 44 catalog + 9 failing programs compiled with the raw Compiler API. De-duplication: run before and after the real RemoveDuplicates on the same symbolic inputs a, b (int64), c (bool); globals, error text and positions compared; pool soundness checked. Write/read-back: the same programs, with and without de-duplication first, run before and after the codec; pools of 2..4 constants with symbolic int/float/char/string values. Generated grammar family (gen.go): every statement sequence of <= 2 nodes from 10 atoms (r += x, x = y + 1, y++, m.k += x, block-scoped declaration, immediately-invoked closure reading a captured variable, closure writing a captured variable, break, continue, return) and 8 wrappers (if, if-else, if with init, 3-clause for, for-in, condition-only for, endless for with break, function literal + call), plus every nesting W(W'(atom)), rendered in 4 variable-placement contexts (top level: globals; function body: parameters/locals; closure: captured parameter/locals; loop inside a function) - 1029 programs, inputs a, b full int64 and c bool symbolic: compile, run; RemoveDuplicates, run; write out/read back, run", "cross": 2},
-        "thorough": {"timeout": "60s", "maxsteps": 12000000, "bounds": "as quick. Generated grammar family (gen.go): every statement sequence of <= 3 nodes (10 atoms, 8 wrappers) in 4 variable-placement contexts - 9262 programs, inputs a, b full int64 and c bool symbolic: compile, run; RemoveDuplicates, run; write out/read back, run", "cross": 3},
+        "quick": {"timeout": "20s", "maxsteps": 12000000, "bounds": "11 constant-heavy programs (source modules imported twice, nested functions, two builtin modules math/text, two object modules without __module_name__ holding bools/undefined/arrays/maps/errors/bytes, a failing program with a multi-line position) + 44 catalog + 9 failing programs compiled with the raw Compiler API. De-duplication: run before and after the real RemoveDuplicates on the same symbolic inputs a, b (int64), c (bool); globals, error text and positions compared; pool soundness checked. Write/read-back: the same programs, with and without de-duplication first, run before and after the codec; pools of 2..4 constants with symbolic int/float/char/string values. Generated grammar family (gen.go): every statement sequence of <= 2 nodes from 13 atoms (r += x, x = y + 1, y++, m.k += x, block-scoped declaration, immediately-invoked closure reading a captured variable, closure writing a captured variable, closure over three variables, block-local escaping in a closure, self-recursive local function, break, continue, return) and 8 wrappers (if, if-else, if with init, 3-clause for, for-in, condition-only for, endless for with break, function literal + call), plus every nesting W(W'(atom)) and sibling blocks W(escape); W'(atom), rendered in 4 variable-placement contexts (top level: globals; function body: parameters/locals; closure: captured parameter/locals; loop inside a function) - 2506 programs, inputs a, b full int64 and c bool symbolic: compile, run; RemoveDuplicates, run; write out/read back, run", "cross": 2},
+        "thorough": {"timeout": "60s", "maxsteps": 12000000, "bounds": "as quick. Generated grammar family (gen.go): every statement sequence of <= 3 nodes (13 atoms, 8 wrappers) in 4 variable-placement contexts - 22092 programs, inputs a, b full int64 and c bool symbolic: compile, run; RemoveDuplicates, run; write out/read back, run", "cross": 3},
     },
     "reach": {"C12_ModulePositions": ["modpos"], "C12_Gen": ["gen"], "C12_WriteRead": ["writeread"], "C12_Dedup": ["dedup"], "C12_SymbolicPool": ["pool"]},
     "assumptions": [
@@ -349,3 +349,36 @@ PROPS["C20"] = {
     "outside": "longer operators/literals/lines; comments in every legal position (only end-of-line positions)",
     "stubs": COMMON_STUBS,
 }
+
+
+# ---- additions (appended to the bounds texts of both tiers)
+CALL_FAMILIES = (" Call families (gen2.go), run like the grammar family: (A) 1308 programs with two function literals f, g, each one of the 13 well-formed combinations of"
+                 " 5 signatures (no parameter, one, two, variadic, one + variadic) and 4 bodies that mention only parameters (bodies of different signatures compile to the same instructions),"
+                 " called with 6 argument forms (0..3 arguments, a spread array, an argument + a spread array), at top level (all pairs) and inside a function (same-body pairs);"
+                 " (B) 72 self-recursion programs f(i, n, acc): 6 per-activation preludes (closure over a parameter / over a local / a self-referencing local helper escaping the activation,"
+                 " a write through a captured parameter, block-locals of sibling blocks one of which is a self-referencing function) x 6 forms of the recursive call (returned, discarded last statement,"
+                 " inside an expression, assigned then returned, wrapped in an immediately-invoked function literal, arm of ?:) x f global / local of a function; depth a & 3 (a symbolic), b symbolic.")
+EXTRA = {
+    "C01": CALL_FAMILIES,
+    "C02": CALL_FAMILIES,
+    "C03": CALL_FAMILIES,
+    "C12": CALL_FAMILIES + " Module positions (C12_ModulePositions): 10 forms of source-module names (plain, directory parts, absolute, extension, dotted, doubled separator) x 4 failing sites"
+           " (module function, module body, through a second module, main after the import) x {de-duplicated first or not}: error text and positions after de-duplication and after write/read-back,"
+           " and the file set's answers for the first and last position of every file. Encode/Decode: the real Bytecode.Encode and Bytecode.Decode are executed; only (*gob.Encoder).Encode and"
+           " (*gob.Decoder).Decode are a model (values queued; decoded as structurally equal fresh copies: no pointer sharing, unexported fields dropped, empty slices/maps nil).",
+    "C11": " Recursion family (C11_GenRec): the 36 programs f(i, n, acc) of gen2.go (6 preludes x 6 call forms, depth a & 3) with f global vs f local to a function body, inside a module function,"
+           " and with the recursive call wrapped in an immediately-invoked function literal.",
+    "C16": " Recursion family (C16_GenRec): 72 programs of gen2.go (6 preludes with closures that escape the activation x 6 call forms x f global/local), depth a & 3 with a, b symbolic: result and every"
+           " value reported by the escaped closures equal the equivalent loop (recRef); for the two tail forms f gets one fresh frame and n in-place re-entries (VM probe), natively depth 3000."
+           " Value stack nearly full (C16_StackBand): call nesting 504..511 x 0..3 pending operands (every stack height in a 32-slot window around the capacity of the 2048-slot value stack) x 2 local counts:"
+           " where one pass through the body of the tail-recursive function fits, depth n in 1..3 (symbolic) fits.",
+    "C17": " '*' operands (C17_Star): 28 directives with one '*' width or precision (d x X o b U c q s f e g t v with flags # 0 + - space) x the boundary values of the kinds the verb applies to,"
+           " the '*' operand a solver variable in -70..70 (beyond the formatter's 68-byte scratch buffers). Directive sequences (C17_Sequence): 10 first directives that leave width/precision/flags behind x 18 second"
+           " directives without width and precision (the fast path) x 3 ints x the boundary values, in one call and in two consecutive calls (pooled printers).",
+    "C18": " Bytes in context (C18_DecodeInContext): 1..3 (thorough 4) arbitrary bytes inside 14 container contexts ([ ], {\"a\": }, [[ ]], [0, ], { :1}, nested object/array, after a partial number/string/literal,"
+           " surrounded by white space): validity vs encoding/json.Valid, no panic; flat arrays element-wise against strconv.",
+    "C05": " Endless programs (run with a context that is cancelled; natively the cancellation arrives 3 ms after the start): loop, for-in over a growing array, self tail recursion (returned, discarded, with builtin calls).",
+}
+for _k, _t in EXTRA.items():
+    for _tier in ("quick", "thorough"):
+        PROPS[_k]["tiers"][_tier]["bounds"] += _t
